@@ -421,7 +421,8 @@ META_BITS = ((1, "c13-patch-radius-not-max-over-all-rows", "the stored radius of
 # ---------------------------------------------------------------- the family
 def run_big(ctx, yaw, edges_choices):
     """-> (terms, report): Coq terms (status codes) and a function report(codes) that turns them into findings"""
-    rng = ctx.rng
+    import random
+    rng = random.Random(ctx.seed * 1000003 + 13013)      # a stream of its own: the other families keep theirs
     terms, cases = [], []
 
     def add(term, cid, meta, decode):
